@@ -34,6 +34,15 @@ pub struct WorldCfg {
     /// evaluate the related-text oracle every n steps (0 = never)
     #[serde(default)]
     pub related_every: usize,
+    /// evaluate the codepoint/byte conversion oracle after every step
+    #[serde(default)]
+    pub conversions: bool,
+    /// record knob-sensitive probe answers after every step (compared across replicas)
+    #[serde(default)]
+    pub probes: bool,
+    /// knob replicas (milestone_interval, shrink_to_fit) that must answer exactly like the primary
+    #[serde(default)]
+    pub replicas: Vec<(usize, bool)>,
 }
 
 impl Default for WorldCfg {
@@ -48,6 +57,9 @@ impl Default for WorldCfg {
             skip_residue: true,
             reindex_with_gaps: false,
             related_every: 0,
+            conversions: false,
+            probes: false,
+            replicas: Vec::new(),
         }
     }
 }
@@ -81,6 +93,7 @@ pub struct RunStats {
     pub skipped: usize,
     pub suppressed: usize,
     pub final_fingerprint: u64,
+    pub probe_log: Vec<Vec<(String, String)>>,
     pub bigrams: std::collections::BTreeSet<(String, String)>,
 }
 
@@ -356,6 +369,9 @@ impl World {
             }
         }
         violations.append(&mut found);
+        if self.cfg.probes && violations.is_empty() {
+            stats.probe_log.push(crate::obs::probe_answers(&self.store, &self.model));
+        }
         if is_restart {
             // whatever is wrong right after a reload is the round trip's doing
             let owner = restart_owner(op);
@@ -384,6 +400,9 @@ impl World {
             c.check_reverse();
             if force_ids || (self.cfg.ids_every > 0 && stepno % self.cfg.ids_every == 0) {
                 c.check_ids(&self.id_pool);
+            }
+            if c.out.is_empty() && self.cfg.conversions {
+                c.check_conversions();
             }
             if c.out.is_empty() && self.cfg.related_every > 0 && stepno % self.cfg.related_every == 0 {
                 c.check_related_text(crate::rng::label_hash("related") ^ (stepno as u64));
@@ -510,7 +529,8 @@ fn dump_diff(a: &stam::verif_hooks::IndexDump, b: &stam::verif_hooks::IndexDump)
 /// Runs a fixed trace (replay / minimisation), with restart attribution
 pub fn run_trace(trace: &Trace) -> RunResult {
     let r = run_trace_raw(trace);
-    attribute(trace, r)
+    let r = attribute(trace, r);
+    replica_check(trace, r)
 }
 
 pub fn run_trace_raw(trace: &Trace) -> RunResult {
@@ -584,15 +604,16 @@ pub fn run_generated(run_seed: u64, profile: &dyn Fn(&mut Rng, &mut GenCfg, &mut
     }
     stats.final_fingerprint = world.model.fingerprint();
     stats.faults_fired = world.fs.fired();
-    (
-        Trace { world: wcfg, ops },
-        gcfg,
+    let trace = Trace { world: wcfg, ops };
+    let result = replica_check(
+        &trace,
         RunResult {
             violations: Vec::new(),
             step: None,
             stats,
         },
-    )
+    );
+    (trace, gcfg, result)
 }
 
 /// Differential attribution: a violation at a later step of a run that went through restarts is
@@ -663,4 +684,49 @@ pub fn generate_world(run_seed: u64, profile: &dyn Fn(&mut Rng, &mut GenCfg, &mu
         }
     }
     (world, ops)
+}
+
+/// Knob replicas: the same trace under different performance-only settings must give the same
+/// outcome at every step and the same probe answers.
+pub fn replica_check(trace: &Trace, primary: RunResult) -> RunResult {
+    if trace.world.replicas.is_empty() || primary.step.is_some() {
+        return primary;
+    }
+    for (mi, stf) in trace.world.replicas.iter() {
+        let mut t = trace.clone();
+        t.world.replicas = Vec::new();
+        t.world.milestone_interval = *mi;
+        t.world.shrink_to_fit = *stf;
+        let r = run_trace_raw(&t);
+        if let Some(step) = r.step {
+            // the replica violates something the primary does not: a knob changed an answer
+            let mut out = primary;
+            out.step = Some(step);
+            out.violations = r
+                .violations
+                .iter()
+                .map(|v| Violation::new("C12", "divergence", format!("replica:{}", v.key), format!("replica(milestone_interval={}, shrink_to_fit={}) but not the primary(milestone_interval={}, shrink_to_fit={}): {} [{}] {}", mi, stf, trace.world.milestone_interval, trace.world.shrink_to_fit, v.owner, v.class, v.detail)))
+                .collect();
+            return out;
+        }
+        for (i, (a, b)) in primary.stats.probe_log.iter().zip(r.stats.probe_log.iter()).enumerate() {
+            if a != b {
+                let mut key = "probe".to_string();
+                let mut detail = String::new();
+                for ((ka, va), (kb, vb)) in a.iter().zip(b.iter()) {
+                    if ka != kb || va != vb {
+                        key = format!("probe:{}", ka.split(':').next().unwrap_or("probe"));
+                        detail = format!("{}: primary(milestone_interval={}, shrink_to_fit={}) answers {:?}, replica(milestone_interval={}, shrink_to_fit={}) answers {:?}", ka, trace.world.milestone_interval, trace.world.shrink_to_fit, va, mi, stf, vb);
+                        break;
+                    }
+                }
+                let mut out = primary;
+                // the probe log has one entry per executed (non-skipped) step; report the index in that log
+                out.step = Some(i.min(trace.ops.len().saturating_sub(1)));
+                out.violations = vec![Violation::new("C12", "divergence", key, format!("probe record {}: {}", i, detail))];
+                return out;
+            }
+        }
+    }
+    primary
 }
